@@ -591,8 +591,10 @@ def make_malformed(rng, defect):
         ht.insert(rng.randint(1, len(ht)), json.dumps({k: v} if rng.random() < 0.5 else {'fresh': 1, k: 'other'}))
     elif defect == 'invalid-extra':
         ht = hdr_texts(items + [(rng.choice(INVALID_NAMES), 1)])
+        start = rng.randint(0, m + 2)     # beyond m the skipping fails first (EOFError): extras are installed last
     elif defect == 'clash-extra':
         ht = hdr_texts(items + [('generate', 1)])
+        start = rng.randint(0, m + 2)
     elif defect == 'bad-probability-value':
         bad = rng.choice([None, [0.1], {'p': 0.1}, [], {}])     # strings: outside the modelled domain, see stream 4
         ht = hdr_texts([('probability', bad)] + items[1:])
@@ -737,6 +739,8 @@ def check_malformed(ctx, scn, rec, head, outs):
                 'negative-start': ('ValueError',), 'missing-file': ('Other:FileNotFoundError',),
                 'badjson-header': ('Other:JSONDecodeError',),
                 'bad-probability-value': ('TypeError', 'ValueError')}.get(d, ('ValueError',))
+        if d in ('invalid-extra', 'clash-extra') and int(scn['start']) > rec['m']:
+            want = ('ValueError', 'EOFError')      # two defects at once; the model pins which one is reported
         if head[0] != 'ERR':
             ctx.violation('malformed-accepted', 'file with defect %s was accepted at construction' % d, rep)
         elif head[1] not in want:
@@ -754,7 +758,8 @@ def check_malformed(ctx, scn, rec, head, outs):
     if j < s:
         if d == 'badjson-body':
             ctx.violation('malformed-accepted', 'bad JSON line in the skipped region was not noticed', rep)
-        return          # skipped objects are not validated (documented behaviour of start)
+        ctx.hist['malformed-line-skipped-by-start(not validated)'] += 1
+        return          # skipped objects are only parsed, not validated
     # objects s.. are served in order; object j is the bad one
     seq = rec['errors'][:j] + [None] + rec['errors'][j:]
     for i, o in enumerate(outs):
@@ -846,7 +851,7 @@ def run(ctx):
             if checker:
                 checker(ctx, scn, rec, head, outs)
             req.append('scn %s %s %s %s' % (file_token(lines), start_token(scn['start']), clash_tok, calls_token(scn['calls'])))
-            cases.append((scn, rec, kind, lines, head, outs))
+            cases.append([scn, rec, kind, lines, head, outs])
             nt = bool(rec and not rec.get('defect') and rec['m'] >= 3 and rec.get('body_comments', 0) >= 1
                       and int(scn['start']) > 0)
             sample = None
@@ -916,8 +921,20 @@ def run(ctx):
         # ---- correspondence with the extracted model -------------------------------------------
         out = ctx.model('c18', req)
         n_ood = 0
+
+        def norm(tr):
+            # the order of the extra attributes in vars(model) is not part of the API: compare as a set
+            toks = tr.split(' ')
+            if toks[0].startswith('OK:') and toks[0] != 'OK:-':
+                toks[0] = 'OK:' + ','.join(sorted(toks[0][3:].split(',')))
+            return ' '.join(toks)
+        model_names = []
         for (scn, rec, kind, lines, head, outs), m, line in zip(cases, out, req):
-            impl = trace_str(head, outs)
+            impl = norm(trace_str(head, outs))
+            h0 = m.split(' ')[0]
+            model_names.append([''.join(chr(int(c, 16)) for c in k.split('.')) for k in h0[3:].split(',')]
+                               if h0.startswith('OK:') and h0 != 'OK:-' else [])
+            m = norm(m)
             mt, it = m.split(' '), impl.split(' ')
             inp = {'request': line[:1500], **replay_dict(scn, rec)}
             if mt[0] == 'OOD':
@@ -938,6 +955,8 @@ def run(ctx):
         out_s = ctx.model('c18', ['scn_s' + r[3:] for r in req[:300]])
         for a, b, r in zip(out[:300], out_s, req):
             ctx.cmp('scenario_s', r[:800], a, b)
+        for c, names in zip(cases, model_names):
+            c[4:5] = [('OK', names) if c[4][0] == 'OK' and sorted(names) == sorted(c[4][1]) else c[4]]
 
         # ---- in-kernel shard --------------------------------------------------------------------
         items, exps = [], []
